@@ -105,6 +105,14 @@ fn build(c: &Case) -> (ElfSpec, Vec<(u64, Vec<String>)>) {
     if c.extras & 1 != 0 {
         segs.push(Seg { p_type: PT_NOTE, flags: 4, vaddr: 0x300200, file: vec![4, 0, 0, 0, 0, 0, 0, 0, 1, 0, 0, 0, b'G', b'N', b'U', 0], memsz: 16, align: 4 });
         segs.push(Seg { p_type: PT_GNU_STACK, flags: 6, vaddr: 0, file: vec![], memsz: 0, align: 16 });
+        // what `ld` emits for the data segment of a static program: a read-only-after-relocation
+        // header that starts where a loadable segment starts. It describes a range INSIDE that
+        // segment and must not change the permissions the PT_LOAD header gives the whole of it.
+        let (slot, sh, _fl) = c.segs[c.segs.len() - 1];
+        let (_fs, ms) = shape_sizes(&sh);
+        if ms > 0 {
+            segs.push(Seg { p_type: PT_GNU_RELRO, flags: 4, vaddr: slot + sh.off, file: vec![], memsz: ms.min(0x10), align: 1 });
+        }
     }
     let first = &c.segs[0];
     let (_f0, m0) = shape_sizes(&first.1);
@@ -153,7 +161,8 @@ fn build(c: &Case) -> (ElfSpec, Vec<(u64, Vec<String>)>) {
         6 => {
             // an unnamed section symbol BEFORE the named one, at another address: the walk over
             // the table must not end at the first symbol without a name
-            expect.push((b, vec!["after_unnamed".into()]));
+            // (in one-byte images the two symbols share the address: then both are defined there)
+            expect.push((b, if a == b { vec!["after_unnamed".into(), "".into()] } else { vec!["after_unnamed".into()] }));
             Some(vec![
                 Sym { name: None, value: a, shndx: 4, info: 0x03 },
                 Sym { name: Some("after_unnamed".into()), value: b, shndx: 4, info: 0x12 },
@@ -394,7 +403,7 @@ pub fn run(tier: Tier) -> i32 {
         return crate::common::finish_replay("C15", &art, &|ws| confirm_enum(&o, &g, ws));
     }
     let out = run_enum(&o, &g);
-    enum_evidence(&mut run, &out, "one case = a generated ET_EXEC file: 1-3 (thorough: 4 over the boundary shapes) PT_LOAD segments in every program-header order over page slots {0x400000, 0x401000, 0x403000, 0x10000000}, in-page offset {0, 0x10, 0xE10} (p_offset congruent), filesz {0, 1, 0x1F0, to page end, 0x1000, 0x2000}, bss tail {0, 1, to page end, 0x1800}, all 8 flag masks (single segment), optional PT_PHDR/PT_NOTE/PT_GNU_STACK, 10 symbol-table variants (none; an indirect function; one function; two names at one address; a named and an unnamed symbol at one address; an undefined symbol next to a defined one; a symbol at the entry; an unnamed section symbol before a named one; a data object; symbols at the first and the last byte of the image), entry at segment start or middle; only combinations whose segments occupy distinct pages; oracle = the writer's own parameters; states = distinct files; distinct_nontrivial = distinct (file, number of violated clauses)");
+    enum_evidence(&mut run, &out, "one case = a generated ET_EXEC file: 1-3 (thorough: 4 over the boundary shapes) PT_LOAD segments in every program-header order over page slots {0x400000, 0x401000, 0x403000, 0x10000000}, in-page offset {0, 0x10, 0xE10} (p_offset congruent), filesz {0, 1, 0x1F0, to page end, 0x1000, 0x2000}, bss tail {0, 1, to page end, 0x1800}, all 8 flag masks (single segment), optional PT_PHDR/PT_NOTE/PT_GNU_STACK/PT_GNU_RELRO (over the start of the last segment), 10 symbol-table variants (none; an indirect function; one function; two names at one address; a named and an unnamed symbol at one address; an undefined symbol next to a defined one; a symbol at the entry; an unnamed section symbol before a named one; a data object; symbols at the first and the last byte of the image), entry at segment start or middle; only combinations whose segments occupy distinct pages; oracle = the writer's own parameters; states = distinct files; distinct_nontrivial = distinct (file, number of violated clauses)");
     run.guard("cases", out.cases >= 50_000 || out.capped, format!("{} files", out.cases));
     run.assume("ET_EXEC with p_vaddr != 0; executable stacks, TLS and dynamic segments are outside 'static well-formed' and exercised by C16");
     let code = run.finish_batch(&|ws| confirm_enum(&o, &g, ws));
